@@ -376,11 +376,13 @@ class Runner:
                                   stdin=subprocess.PIPE, stdout=subprocess.PIPE,
                                   text=True, bufsize=1)
 
+    limit = 45          # seconds per call; raised by checks that hand the list-based reader a deliberately big volume
+
     def call(self, cmd, arg):
         if self.p is None or self.p.poll() is not None:
             self.start()
         try:
-            with time_limit(45, f"model runner {self.area}.{cmd}"):
+            with time_limit(self.limit, f"model runner {self.area}.{cmd}"):
                 self.p.stdin.write(cmd + ' ' + enc(arg) + '\n')
                 self.p.stdin.flush()
                 line = self.p.stdout.readline()
